@@ -30,10 +30,14 @@ func GenerateConcurrent(bitsize int, stop chan struct{}) (<-chan *big.Int, <-cha
 	stopped := make(chan struct{})
 	var stopOnce sync.Once // stopped may be closed by the monitor and by any number of failing workers
 	go func() {
+		verifHook("monitor.start", stop, stopped)
 		select {
 		case <-stop:
+			verifHook("monitor.close.before", stopped)
 			stopOnce.Do(func() { close(stopped) })
+			verifHook("monitor.close.after", stopped)
 		case <-stopped: // stopped can also be closed by a goroutine that encountered an error
+			verifHook("monitor.stopped", stopped)
 		}
 	}()
 
@@ -43,8 +47,11 @@ func GenerateConcurrent(bitsize int, stop chan struct{}) (<-chan *big.Int, <-cha
 			for {
 				// Pass stopped chan along; if closed, Generate() returns nil, nil
 				x, err := Generate(bitsize, stopped)
+				verifHook("worker.generated", stopped, x, err)
 				if err != nil {
+					verifHook("worker.err.before", stopped, err)
 					errs <- err
+					verifHook("worker.err.close.before", stopped)
 					stopOnce.Do(func() { close(stopped) })
 					return
 				}
@@ -54,13 +61,17 @@ func GenerateConcurrent(bitsize int, stop chan struct{}) (<-chan *big.Int, <-cha
 				// while the channel is full, and then this goroutine would block forever.
 				select {
 				case <-stopped:
+					verifHook("worker.stopped", stopped, 1)
 					return
 				default:
 				}
+				verifHook("worker.send.before", stopped, x)
 				select {
 				case <-stopped:
+					verifHook("worker.stopped", stopped, 2)
 					return
 				case ints <- x:
+					verifHook("worker.send.after", stopped, x)
 				}
 			}
 		}()
